@@ -190,18 +190,16 @@ class Solver:
         self._compute_powertrain_inertia()
         if self.__powertrain.time:
             initial_time = self.__powertrain.time[-1]
-            final_time = initial_time + simulation_time + time_discretization
         else:
             initial_time = Time(value=0, unit=time_discretization.unit)
-            final_time = initial_time + simulation_time + time_discretization
             self.__powertrain.update_time(initial_time)
             self._compute_powertrain_variables(motor_control=motor_control)
 
-        for k in np.arange(
-            initial_time.value + time_discretization.value,
-            final_time.value,
-            time_discretization.value
-        ):
+        n_steps = int(np.ceil(
+            np.round(simulation_time/time_discretization, decimals=9)
+        ))
+        for i in range(1, n_steps + 1):
+            k = initial_time.value + i*time_discretization.value
 
             self.__powertrain.update_time(
                 Time(value=float(k), unit=time_discretization.unit)
